@@ -2,8 +2,9 @@
 that is *not* translated by gen_tables.py / py2lean.py, a fingerprint of its current source (docstrings, comments, `__repr__`
 methods and formatting removed) is regenerated into `Generated/Pins<Cxx>.lean` on every run; `Props/Pins<Cxx>.lean` holds the
 fingerprints of the text the model was read from, one `rfl` theorem per function.  A change to an anchored function therefore
-breaks a proof obligation of exactly the property whose model reads it (each function is anchored for one property only), the
-run escalates and searches for a failing input, and reports as DESIGN §2.3 prescribes.
+breaks a proof obligation of the properties whose statements depend on it (CONES below: the property whose model transcribes the
+function, and the properties whose models compose with that model), the run escalates and searches for a failing input, and
+reports as DESIGN §2.3 prescribes.
 
 `python3 source_pins.py --update` (a developer action, never run by a check) rewrites the Props/Pins*.lean files from the
 current /repo — to be used after a deliberate, reviewed change of /repo (e.g. a `fix:` commit) once the model has been re-read.
@@ -15,39 +16,73 @@ import hashlib
 import os
 import sys
 
-# property -> [(file relative to src/optyx, qualified name)]
-ANCHORS: dict[str, list[tuple[str, str]]] = {
-    "C01": [("core/compiler.py", n) for n in ("compile_expression", "_compile_cached", "_estimate_tree_depth", "_param_value",
-                                               "_build_evaluator", "_build_vector_evaluator", "_build_evaluator_iterative",
-                                               "compile_to_dict_function", "CompiledExpression")],
-    "C03": [("core/compiler.py", n) for n in ("compile_gradient", "_compile_vectorized_power_gradient",
-                                               "_compile_vectorized_unary_gradient")]
-           + [("core/autodiff.py", n) for n in ("compute_jacobian", "compile_jacobian", "_is_scaled_variable_pattern")]
-           + [("core/vectors.py", f"{c}.jacobian_row") for c in ("VectorSum", "VectorExpressionSum", "DotProduct",
-                                                                  "LinearCombination", "VectorPowerSum", "VectorUnarySum")]
-           + [("core/matrices.py", f"{c}.jacobian_row") for c in ("MatrixSum", "QuadraticForm")]
-           + [("core/expressions.py", "Expression.jacobian_row")],
-    "C04": [("analysis.py", n) for n in ("compute_degree", "_estimate_tree_depth",
-                                          "_compute_degree_cached", "is_linear", "is_quadratic")]
-           + [("core/expressions.py", "Expression.degree")],
-    "C05": [("analysis.py", n) for n in ("extract_all_linear_coefficients", "_try_extract_fast_binop", "_vector_is_aligned",
-                                          "extract_linear_coefficient", "extract_constant_term")],
-    "C07": [("solution.py", "Solution")],
-    "C08": [("solvers/lp_solver.py", "solve_lp")],
-    "C09": [("solvers/scipy_solver.py", "solve_scipy")],
-    "C10": [("constraints.py", "Constraint"), ("constraints.py", "_make_constraint")],
-    "C11": [("core/vectors.py", "VectorVariable"), ("core/matrices.py", "MatrixVariable")],
-    "C12": [("core/parameters.py", "Parameter"), ("core/parameters.py", "_as_parameter_value")],
-    "C13": [("problem.py", f"Problem.{m}") for m in ("__init__", "_invalidate_caches", "minimize", "maximize", "subject_to",
-                                                      "_validate_expression", "_validate_constraint", "_is_linear_problem",
-                                                      "_only_simple_bounds", "_has_equality_constraints")],
-    "C15": [("core/autodiff.py", "_gradient_iterative"), ("core/autodiff.py", "_estimate_tree_depth"),
-            ("core/expressions.py", "_get_variables_iterative"), ("core/expressions.py", "_estimate_tree_depth")],
-    "C16": [("problem.py", f"Problem.{m}") for m in ("variables", "n_variables", "n_constraints", "get_bounds", "summary",
-                                                      "objective", "sense", "constraints")],
-    "C17": [("core/autodiff.py", "compute_hessian"), ("core/autodiff.py", "compile_hessian")],
-    "C20": [("problem.py", "Problem.solve"), ("core/autodiff.py", "increased_recursion_limit")],
+# groups of functions that hand-written models transcribe (none of them is covered by a translator)
+GROUPS: dict[str, list[tuple[str, str]]] = {
+    "compile": [("core/compiler.py", n) for n in ("compile_expression", "_compile_cached", "_estimate_tree_depth", "_param_value",
+                                                   "_build_evaluator", "_build_vector_evaluator", "_build_evaluator_iterative",
+                                                   "compile_to_dict_function", "CompiledExpression")],
+    "jacobian": [("core/compiler.py", n) for n in ("compile_gradient", "_compile_vectorized_power_gradient",
+                                                    "_compile_vectorized_unary_gradient")]
+                + [("core/autodiff.py", n) for n in ("compute_jacobian", "compile_jacobian", "_is_scaled_variable_pattern")]
+                + [("core/vectors.py", f"{c}.jacobian_row") for c in ("VectorSum", "VectorExpressionSum", "DotProduct",
+                                                                       "LinearCombination", "VectorPowerSum", "VectorUnarySum")]
+                + [("core/matrices.py", f"{c}.jacobian_row") for c in ("MatrixSum", "QuadraticForm")]
+                + [("core/expressions.py", "Expression.jacobian_row")],
+    "hessian": [("core/autodiff.py", "compute_hessian"), ("core/autodiff.py", "compile_hessian")],
+    "degree": [("analysis.py", n) for n in ("compute_degree", "_estimate_tree_depth", "_compute_degree_cached", "is_linear",
+                                             "is_quadratic")]
+              + [("core/expressions.py", "Expression.degree")],
+    "lp_extract": [("analysis.py", n) for n in ("extract_all_linear_coefficients", "_try_extract_fast_binop", "_vector_is_aligned",
+                                                 "extract_linear_coefficient", "extract_constant_term")],
+    "solution": [("solution.py", "Solution")],
+    "solve_lp": [("solvers/lp_solver.py", "solve_lp")],
+    "solve_scipy": [("solvers/scipy_solver.py", "solve_scipy")],
+    "constraint": [("constraints.py", "Constraint"), ("constraints.py", "_make_constraint")],
+    "vecmat": [("core/vectors.py", "VectorVariable"), ("core/matrices.py", "MatrixVariable")],
+    "parameter": [("core/parameters.py", "Parameter"), ("core/parameters.py", "_as_parameter_value")],
+    "problem_edit": [("problem.py", f"Problem.{m}") for m in ("__init__", "_invalidate_caches", "minimize", "maximize", "subject_to",
+                                                               "_validate_expression", "_validate_constraint", "_is_linear_problem",
+                                                               "_only_simple_bounds", "_has_equality_constraints")],
+    "problem_read": [("problem.py", f"Problem.{m}") for m in ("variables", "n_variables", "n_constraints", "get_bounds", "summary",
+                                                               "objective", "sense", "constraints")],
+    "get_variables": [("core/expressions.py", "get_all_variables"), ("core/expressions.py", "_get_variables_iterative"),
+                      ("core/expressions.py", "_estimate_tree_depth")]
+                     + [("core/expressions.py", f"{c}.get_variables") for c in ("Constant", "Variable", "BinaryOp", "UnaryOp")],
+    "iterative": [("core/autodiff.py", "_gradient_iterative"), ("core/autodiff.py", "_estimate_tree_depth")],
+    "solve": [("problem.py", "Problem.solve"), ("core/autodiff.py", "increased_recursion_limit")],
 }
+
+# property -> the groups its statement depends on (its own model's transcription first, then the models it composes with)
+CONES: dict[str, list[str]] = {
+    "C01": ["compile"],
+    "C03": ["jacobian", "compile"],
+    "C04": ["degree"],
+    "C05": ["lp_extract"],
+    "C06": ["solve_scipy", "solve_lp", "compile", "lp_extract", "constraint"],
+    "C07": ["solution", "solve_scipy", "solve_lp", "problem_edit", "compile"],
+    "C08": ["solve_lp", "lp_extract", "problem_edit"],
+    "C09": ["solve_scipy", "compile", "jacobian", "hessian"],
+    "C10": ["constraint", "solve_scipy"],
+    "C11": ["vecmat"],
+    "C12": ["parameter", "compile", "jacobian", "hessian"],
+    "C13": ["problem_edit", "problem_read", "solve", "solve_scipy", "solve_lp"],
+    "C14": ["compile", "problem_edit", "problem_read", "constraint", "jacobian", "hessian", "degree", "parameter", "get_variables"],
+    "C15": ["iterative", "get_variables", "compile"],
+    "C16": ["problem_read", "get_variables"],
+    "C17": ["hessian", "compile"],
+    "C18": ["solve", "solve_lp", "solve_scipy"],
+    "C19": ["jacobian", "hessian"],
+    "C20": ["solve", "solve_scipy", "solve_lp", "jacobian", "hessian", "compile"],
+}
+
+ANCHORS: dict[str, list[tuple[str, str]]] = {}
+for _p, _gs in CONES.items():
+    _seen: list[tuple[str, str]] = []
+    for _g in _gs:
+        for _fq in GROUPS[_g]:
+            if _fq not in _seen:
+                _seen.append(_fq)
+    ANCHORS[_p] = _seen
 
 SKIP_METHODS = {"__repr__", "__str__", "_repr_html_"}
 
@@ -107,7 +142,7 @@ def expected(repo: str, prop: str) -> str:
     out = [f"/-\n  Optyx.Props.Pins{prop} — transcription anchors of {prop} (harness/source_pins.py).\n"
            f"  Each theorem says: the function the hand-written model of {prop} was read from has, in the source of this run,\n"
            f"  the fingerprint of the text it was read from.  Rewritten only by `source_pins.py --update` after a reviewed change.\n-/",
-           f"import Optyx.Generated.Pins{prop}", "", f"namespace Optyx.Props.Pins{prop}", "open Optyx.Generated", ""]
+           f"import Optyx.Generated.Pins{prop}", "", f"namespace Optyx.Props.Pins{prop}", f"open Optyx.Generated.Pins{prop}", ""]
     for (file, qual), nm in zip(ANCHORS[prop], names):
         out.append(f"/-- `{qual}` ({file}) -/")
         out.append(f"theorem {nm}_anchor : {nm} = \"{fingerprint(repo, file, qual)}\" := rfl")
